@@ -1,0 +1,70 @@
+#ifndef HGRAPH_UTIL_VERIF_HOOK_H
+#define HGRAPH_UTIL_VERIF_HOOK_H
+
+// Verification hooks (add-only instrumentation, used by an external
+// verification harness). Everything here is inert unless the process was
+// started with the environment variable HGRAPH_VERIF=1 *and* the harness has
+// installed a callback; with the guard off each call is one load of a cached
+// boolean and a return.
+//
+//  * sync_point(name): called at named places of the real-time loop and the
+//    push-source queue. A harness can park the calling thread there to force
+//    a chosen interleaving of the runtime's critical sections.
+//  * wall_clock_override(out): lets a harness drive the real-time executor
+//    from a virtual wall clock.
+
+#include <atomic>
+#include <cstdint>
+#include <cstdlib>
+
+namespace hgraph::verif
+{
+    using SyncPointFn = void (*)(const char *name, void *context);
+    using WallClockFn = std::int64_t (*)(void *context);  // microseconds since the epoch
+
+    struct Hooks
+    {
+        std::atomic<SyncPointFn> sync_point{nullptr};
+        std::atomic<void *>      sync_context{nullptr};
+        std::atomic<WallClockFn> wall_clock{nullptr};
+        std::atomic<void *>      wall_context{nullptr};
+    };
+
+    inline Hooks &hooks() noexcept
+    {
+        static Hooks instance;
+        return instance;
+    }
+
+    [[nodiscard]] inline bool enabled() noexcept
+    {
+        static const bool value = [] {
+            const char *env = std::getenv("HGRAPH_VERIF");
+            return env != nullptr && env[0] == '1' && env[1] == '\0';
+        }();
+        return value;
+    }
+
+    inline void sync_point(const char *name) noexcept
+    {
+        if (!enabled()) { return; }
+        if (SyncPointFn fn = hooks().sync_point.load(std::memory_order_acquire); fn != nullptr)
+        {
+            fn(name, hooks().sync_context.load(std::memory_order_acquire));
+        }
+    }
+
+    /** Returns true and writes the virtual wall time when a harness clock is installed. */
+    [[nodiscard]] inline bool wall_clock_override(std::int64_t &microseconds) noexcept
+    {
+        if (!enabled()) { return false; }
+        if (WallClockFn fn = hooks().wall_clock.load(std::memory_order_acquire); fn != nullptr)
+        {
+            microseconds = fn(hooks().wall_context.load(std::memory_order_acquire));
+            return true;
+        }
+        return false;
+    }
+}  // namespace hgraph::verif
+
+#endif  // HGRAPH_UTIL_VERIF_HOOK_H
